@@ -47,6 +47,17 @@ def iir(al, den, route):
         return al.ZFilter([1], [int(c) if c.denominator == 1 else Fraction(c) for c in den])
     if route == "list":
         return al.ZFilter([1], d)
+    if route == "rewritten":
+        # a filter object that has been judged before with other coefficients and whose denominator polynomial was
+        # then rewritten in place, coefficient by coefficient: the filter of its CURRENT coefficients
+        f = al.ZFilter([1], [Fraction(1)] + [Fraction(1, 4)] * (len(d) - 1))
+        try:
+            al.parcor_stable(f)
+        except Exception:                        # noqa: the judged call is what counts
+            pass
+        for k, c in enumerate(d):
+            f.denpoly[k] = c
+        return f
     if route == "inverse":
         return 1 / al.ZFilter(d)
     if route == "delayed-num":
@@ -179,7 +190,7 @@ def m2(ctx, al, cfg):
             kd = L.frs(st["kd"])
             seen_st["stable" if want else "unstable"] += 1
             seen_st["nonmonic"] += gain != 1
-            routes = ["list", "inverse", "delayed-num"]
+            routes = ["list", "inverse", "delayed-num", "rewritten"]
             # inexact arithmetic only where no |k| of the exact step-down is within 1/16 of 1
             if all(abs(abs(k) - 1) >= Fraction(1, 16) for k in kd):
                 routes.append("mixed")
